@@ -115,7 +115,7 @@ def call(I, ctx, fr, fv, args, kwargs, node, star):
         if star is not None:
             kwargs = dict(kwargs)
             kwargs['__star__'] = star
-        if getattr(ctx, 'no_branch', 0):
+        if getattr(ctx, 'no_branch', 0) and not getattr(fv, 'keep_opt', False):
             # spec functions are total: an optional argument stands for its value (the
             # formula guards the None case itself)
             args = [a.val if isinstance(a, VOpt) else a for a in args]
